@@ -13,7 +13,7 @@ cp "$WT/demo/patch.diff" "$D/patch.diff" || exit 2
 cp "$WT/demo/demo.cpp" "$D/demo.cpp" || exit 2
 [ -f "$WT/demo/README.md" ] && cp "$WT/demo/README.md" "$D/agent_README.md"
 git -C /repo apply --check "$D/patch.diff" && echo "CONFIRM patch applies to /repo HEAD: yes" || { echo "CONFIRM patch applies: NO"; exit 1; }
-SUITE=$(/tmp/wt-tools/build_and_test.sh "$WT" | head -1)
+SUITE=$(/verif/tools/build_and_test.sh "$WT" | head -1)
 echo "CONFIRM suite with change: $SUITE"
 FLAGS="-std=c++20 -O2 -DADA_USE_UNSAFE_STD_REGEX_PROVIDER=1 -pthread"   # g++ cannot compile ada below -O2 (always_inline through std::ranges)
 mkdir -p /tmp/confirm-$NAME
